@@ -135,7 +135,7 @@ func runTokenTable(p *Prog, r *Report) {
 			})
 		}
 	}
-	r.ExpectMin("E7.supported-token-types", len(supported), 10)
+	r.ExpectMin("E7.supported-token-types", len(supported), 8)
 	n := 0
 	for _, fn := range p.Funcs {
 		info := fn.Info()
@@ -165,7 +165,7 @@ func runTokenTable(p *Prog, r *Report) {
 			return true
 		})
 	}
-	r.ExpectMin("E7.token-literals", n, 18)
+	r.ExpectMin("E7.token-literals", n, 14)
 	r.Clauses = append(r.Clauses, "E7 every lang.SemanticToken literal uses a token type listed in lang.SupportedSemanticTokenTypes")
 }
 
@@ -252,6 +252,68 @@ func runCrossFile(p *Prog, r *Report) {
 			return true
 		})
 	}
+	// the same for direct comparisons of byte offsets of two different ranges
+	for _, fn := range p.Funcs {
+		if !strings.HasSuffix(fn.Pkg.PkgPath, "hcl-lang/reference") || fn.Body == nil {
+			continue
+		}
+		info := fn.Info()
+		rangeOfByte := func(e ast.Expr) ast.Expr {
+			s1, ok := ast.Unparen(e).(*ast.SelectorExpr)
+			if !ok || s1.Sel.Name != "Byte" {
+				return nil
+			}
+			s2, ok := ast.Unparen(s1.X).(*ast.SelectorExpr)
+			if !ok || (s2.Sel.Name != "Start" && s2.Sel.Name != "End") {
+				return nil
+			}
+			if t := info.TypeOf(s2.X); t == nil || !isHclRange(t) {
+				return nil
+			}
+			return s2.X
+		}
+		ast.Inspect(fn.Body, func(x ast.Node) bool {
+			be, ok := x.(*ast.BinaryExpr)
+			if !ok {
+				return true
+			}
+			switch be.Op {
+			case token.LSS, token.LEQ, token.GTR, token.GEQ, token.EQL, token.NEQ:
+			default:
+				return true
+			}
+			ra, rb := rangeOfByte(be.X), rangeOfByte(be.Y)
+			if ra == nil || rb == nil || fn.Canon(ra) == fn.Canon(rb) {
+				return true
+			}
+			n++
+			ca, cb := fn.Canon(ra), fn.Canon(rb)
+			construct := exprStr(be)
+			ok2 := fn.GuardsAt(be).Holds(func(a *Atom) bool {
+				if a.E == nil {
+					return false
+				}
+				fe, isBe := ast.Unparen(a.E).(*ast.BinaryExpr)
+				if !isBe || (fe.Op != token.EQL && fe.Op != token.NEQ) || (fe.Op == token.EQL) != a.Pol {
+					return false
+				}
+				l, okl := ast.Unparen(fe.X).(*ast.SelectorExpr)
+				rr, okr := ast.Unparen(fe.Y).(*ast.SelectorExpr)
+				if !okl || !okr || l.Sel.Name != "Filename" || rr.Sel.Name != "Filename" {
+					return false
+				}
+				x, y := fn.Canon(l.X), fn.Canon(rr.X)
+				return (x == ca && y == cb) || (x == cb && y == ca)
+			})
+			if ok2 {
+				r.Add("E6.cross-file-compare", fn.Name, construct, p.Pos(be), OK, "byte offsets of two ranges are compared only after their Filenames were found equal", true)
+			} else {
+				r.Add("E6.cross-file-compare", fn.Name, construct, p.Pos(be), Violated,
+					"byte offsets of "+exprStr(ra)+" and "+exprStr(rb)+" are compared although the two ranges may belong to different files: no Filename equality on every path to this comparison", true)
+			}
+			return true
+		})
+	}
 	r.ExpectMin("E6.containment-tests-in-reference", n, 6)
 	r.Clauses = append(r.Clauses, "in package reference every byte-offset containment test on a target/origin range is preceded on every path by a Filename equality on that range (block-local names never leak across files)")
 }
@@ -308,7 +370,7 @@ func runWhoMayCall(p *Prog, r *Report) {
 			return true
 		})
 	}
-	r.ExpectMin("E1.who-may-call-sites", n, 4)
+	r.ExpectMin("E1.who-may-call-sites", n, 3)
 	r.Clauses = append(r.Clauses, "candidate helpers of one constraint kind are called only from that kind's decoder")
 }
 
@@ -345,7 +407,7 @@ func runDispatch(p *Prog, r *Report) {
 			impls = append(impls, name)
 		}
 	}
-	r.ExpectMin("E7.constraint-kinds", len(impls), 10)
+	r.ExpectMin("E7.constraint-kinds", len(impls), 8)
 	for _, fn := range p.Funcs {
 		if bareFuncName(fn) != "newExpression" || fn.Decl == nil || fn.Decl.Recv != nil {
 			continue
